@@ -39,6 +39,7 @@ def cases(tier):
         yield {"kind": "row", "i": i}
     for s in SIGMAS:
         yield {"kind": "triples", "sigma": s}
+    yield {"kind": "noise"}
     for n in ((6, 9, 14) if tier == "quick" else (6, 7, 9, 14, 25, 40)):
         for k in range(3):
             yield {"kind": "medium", "n": n, "k": k}
@@ -71,6 +72,18 @@ def run_case(case, ctx):
 
     if case["kind"] == "triples":
         return triples(case, ctx)
+    if case["kind"] == "noise":
+        # points of tiny persistence ("noise" next to the diagonal) and very wide kernels: every pair term is a
+        # small difference of two nearly equal exponentials - the regime where series shortcuts go wrong
+        tiny = [0.0005, 0.004, 0.02, 0.039999, 0.040001, 0.3]
+        dg = [[[0.0, p]] for p in tiny] + [[[0.0, 0.01], [1.0, 1.03]], [[0.5, 0.52], [2.0, 2.001], [0.1, 0.1004]], [[0.0, 1.0], [0.25, 0.2501]], []]
+        for F in dg:
+            for G in dg:
+                for sigma in (0.4, 0.05, 3.0, 250.0, 4000.0):
+                    ctx.state(("noise", F, G, sigma))
+                    check_val(ctx, "value-noise", h(ctx, F, G, sigma), F, G, sigma, "tiny persistences / wide kernel")
+        ctx.nontriv("tiny_persistence_or_wide_kernel")
+        return
     if case["kind"] == "medium":
         F = medium_diagram(case["n"], case["k"], False)
         for n2, k2, lat in ((case["n"], case["k"] + 1, False), (5, case["k"], True), (case["n"] + 3, 0, False)):
